@@ -17,6 +17,7 @@ package ggql
 import (
 	"io"
 	"strings"
+	"time"
 )
 
 // InputField in a representation of a field in an input object.
@@ -80,6 +81,9 @@ func (f *InputField) Resolve(field *Field, args map[string]interface{}) (result 
 		switch tv := result.(type) {
 		case Symbol:
 			result = string(tv)
+		case time.Time:
+			// A Time default is kept as the coerced value.
+			result = tv.Format(time.RFC3339Nano)
 		case []interface{}, map[string]interface{}:
 			// A list or an object can only be given as it is written in SDL.
 			var b strings.Builder
